@@ -28,7 +28,7 @@ pub struct Executed {
     pub vt_exact: bool,
 }
 
-fn random_sched(seed: u64, world: usize, params: &[SchedParams]) -> Box<dyn Scheduler> {
+fn random_sched(seed: u64, world: usize, params: &[SchedParams], n: usize) -> Box<dyn Scheduler> {
     let runs = params
         .iter()
         .enumerate()
@@ -45,7 +45,8 @@ fn random_sched(seed: u64, world: usize, params: &[SchedParams]) -> Box<dyn Sche
         .map(|_| match global.below(4) {
             0 | 1 => 0,
             2 => global.range(1, 6) as u32,
-            _ => global.range(6, 20) as u32,
+            // up to "the others are nearly done" (a run needs a few steps per function)
+            _ => global.range(6, 20 + 3 * n) as u32,
         })
         .collect();
     Box::new(RandomScheduler {
@@ -168,6 +169,30 @@ pub fn evaluate(
             }
             None
         }
+        Mode::History if prop != Prop::C15 => {
+            // the property's own oracle on every run of the history
+            for (i, rs) in case.runs.iter().enumerate() {
+                if let Some(mut v) = oracle::check_run(prop, case, built, &result.drives[i].events, 0, rs) {
+                    v.msg = format!("run {i} of a history of {} runs on one graph value: {}", case.runs.len(), v.msg);
+                    v.run = i;
+                    return Some(v);
+                }
+            }
+            None
+        }
+        Mode::Concurrent if prop != Prop::C20 => {
+            let d = &result.drives[0];
+            if has_step_cap(&d.events) {
+                return None;
+            }
+            for (r, rs) in case.runs.iter().enumerate() {
+                if let Some(mut v) = oracle::check_run(prop, case, built, &d.events, r, rs) {
+                    v.msg = format!("run {r} of {} simultaneous runs: {}", case.runs.len(), v.msg);
+                    return Some(v);
+                }
+            }
+            None
+        }
         Mode::History => {
             let k = case.runs.len();
             let reused = &result.drives[k - 1];
@@ -227,9 +252,9 @@ pub fn evaluate(
     }
 }
 
-fn solo_cases(case: &CaseSpec, result: &CaseResult) -> Result<Vec<CaseResult>, CaseError> {
+fn solo_cases(prop: Prop, case: &CaseSpec, result: &CaseResult) -> Result<Vec<CaseResult>, CaseError> {
     let mut out = Vec::new();
-    if case.mode != Mode::Concurrent {
+    if case.mode != Mode::Concurrent || prop != Prop::C20 {
         return Ok(out);
     }
     let sched = &result.drives[0].schedule;
@@ -287,7 +312,7 @@ pub fn execute_generated(prop: Prop, seed: u64, case: CaseSpec, sched: Vec<Sched
             Mode::History => vec![sched[world].clone()],
             _ => sched.clone(),
         };
-        random_sched(seed, world, &params)
+        random_sched(seed, world, &params, case.graph.fns.len())
     });
     let vt = vt_discipline(&sched);
     finish(prop, case, sched, vt, res)
@@ -309,7 +334,7 @@ fn finish(prop: Prop, case: CaseSpec, sched: Vec<SchedParams>, vt_exact: bool, r
         },
         Ok(result) => {
             let mut harness_error = result.drives.iter().find_map(|d| harness_panic(&d.events));
-            let solos = match solo_cases(&case, &result) {
+            let solos = match solo_cases(prop, &case, &result) {
                 Ok(s) => s,
                 Err(CaseError::BuildPanic(m)) => {
                     harness_error = Some(format!("build() panicked: {m}"));
